@@ -290,7 +290,7 @@ def findingWitness : Input :=
   { level := "strict", override := [("revocation", "skip")], pluginAttr := .named, minVerAttr := .absent,
     extAttrs := [{ key := "com.example.mustUnderstand", critical := true }], pluginState := .installed,
     pluginVersion := .ok, capIdentity := false, capRevocation := true, trust := .found,
-    identityMatch := true, expired := false, timestampOk := true, revocation := .ok,
+    identityMatch := true, wildcardIdentity := false, expired := false, timestampOk := true, revocation := .ok,
     pluginCallError := false, processed := [], verdictIdentity := .success, verdictRevocation := .success }
 
 theorem finding_counterexample :
@@ -550,7 +550,7 @@ def sampleAccepted : Input :=
   { level := "permissive", override := [], pluginAttr := .named, minVerAttr := .valid,
     extAttrs := [{ key := "com.example.a", critical := true }], pluginState := .installed,
     pluginVersion := .ok, capIdentity := true, capRevocation := true, trust := .found,
-    identityMatch := false, expired := true, timestampOk := true, revocation := .revoked,
+    identityMatch := false, wildcardIdentity := false, expired := true, timestampOk := true, revocation := .revoked,
     pluginCallError := false, processed := ["com.example.a"], verdictIdentity := .success,
     verdictRevocation := .failure }
 
